@@ -311,11 +311,14 @@ class ThreadingApplication(Application):
             try:
                 self._thread_slots.put(None, timeout=5)
             except queue.Full:
-                answer = self.generate_answer(
-                    recv_message,
-                    result_code=constants.E_RESULT_CODE_DIAMETER_TOO_BUSY,
-                    error_message="Insufficient resources to handle the request")
-                self.send_answer(answer)
+                try:
+                    answer = self.generate_answer(
+                        recv_message,
+                        result_code=constants.E_RESULT_CODE_DIAMETER_TOO_BUSY,
+                        error_message="Insufficient resources to handle the request")
+                    self.send_answer(answer)
+                except Exception as e:
+                    logger.warning(f"{self} failed to reject request: {e}")
                 continue
 
             process_message = threading.Thread(
@@ -341,7 +344,12 @@ class ThreadingApplication(Application):
             except Exception:
                 pass
             if isinstance(resp_message, Message):
-                self.send_answer(resp_message)
+                try:
+                    self.send_answer(resp_message)
+                except Exception as e:
+                    logger.warning(
+                        f"{self} failed to send answer "
+                        f"{hex(resp_message.header.hop_by_hop_identifier)}: {e}")
 
     def _process_recv_msg(self, message: Message):
         try:
@@ -351,8 +359,9 @@ class ThreadingApplication(Application):
             answer = self.generate_answer(
                 message,
                 result_code=constants.E_RESULT_CODE_DIAMETER_UNABLE_TO_COMPLY)
-        if answer is not None:
-            self._resp_msg_queue.put(answer)
+        # always hand over, also when there is nothing to send, so that the
+        # thread slot taken for this request is given back
+        self._resp_msg_queue.put(answer)
 
     def handle_request(self, message: Message) -> Message | None:
         """Called by diameter node every time a request message is received.
